@@ -68,7 +68,8 @@ def set_bond_orders(
         )
     )
 
-    index_map_num_dict = {i: map_num for i, map_num in enumerate(graph.atoms)}
+    # position of each atom in graph.atoms (the order of the matrix)
+    index_map_num_dict = {map_num: i for i, map_num in enumerate(graph.atoms)}
 
     map_num_idx_dict = {
         map_num: idx for idx, map_num in idx_map_num_dict.items()
